@@ -80,5 +80,33 @@ fn literal_sub() -> Box<dyn vengine::SubCheck> {
 pub fn property() -> Property {
     let mut subs = all_subs();
     subs.push(literal_sub());
-    Property { id: "C20", rule: "", assumptions: vec![], subs }
+    Property {
+        id: "C20",
+        rule: "a case = one estimator configuration (estimator, hyper-parameters, rng seed, data shape and a u64 from which the data \
+               are derived with SplitMix) + the pool size used for the repetitions; it is executed 5 times in one process (fresh HashMaps = \
+               fresh SipHash keys each time, fresh rayon pool = fresh threads each time), once under local rayon pools of 1,2,3,5,8,16 threads \
+               (pools 1 and 16 only for estimators without parallel code) and in 3 (quick) / 6 (thorough) freshly spawned processes with \
+               RAYON_NUM_THREADS in {1,4,16,2,8,3} using rayon's global pool; every run must reproduce the FNV-64 digests (bit patterns, \
+               shapes) of every learned array, of the serialised model and of the predictions of the first run. Non-trivial = \
+               (k-means family) at least two distinct rayon workers were observed evaluating the centroid distances during one fit — \
+               observed through a pass-through Distance wrapper, which replaces the worker-count hook that does not exist; for the \
+               builder-default / GMM-via-k-means modes, which use linfa's own L2Dist, the label is conservative: n >= 2000 rows and pools \
+               of >= 2 threads, where rayon splits any Zip longer than one row; (trees, naive Bayes, literal cases) the input contains an \
+               exact label / posterior tie or >= 3 classes (hash-ordered float sums); (clustering) >= 2 clusters were found so id numbering \
+               can move, or distances are tied on a lattice; (other estimators) the estimator draws random numbers, orders labels or builds \
+               a hash-map backed vocabulary. Distinct = distinct canonical JSON of the case",
+        assumptions: vec![
+            "bit identity is judged on FNV-64 digests of the bit patterns (a digest collision would hide a difference: probability ~2^-64 per comparison)".into(),
+            "schedules are sampled, not enumerated: pool sizes {1,2,3,5,8,16}, 5 repetitions, 3/6 processes; the harness does not own rayon's scheduler".into(),
+            "outside the claim and not generated: permutation p-values, FastICA without random state, the k-means|| initialiser, t-SNE".into(),
+            "text vocabularies are compared as word->column maps: the vocabulary as a sorted set and the transformed counts / tf-idf values re-indexed by word".into(),
+            "hash-map backed models (naive Bayes) and decision trees are additionally compared through their serde serialisation with object keys sorted; all other models through their bincode bytes".into(),
+            "trusted base: data derivation (SplitMix), digest code, rayon's ThreadPoolBuilder/install, std::process; linfa's Distance implementations are only wrapped (arithmetic untouched)".into(),
+            "not generated for liveness reasons (nothing to do with determinism): Tweedie powers 1,2,3 and fits without intercept (the L-BFGS line search does not terminate on some inputs), SVR with the polynomial kernel (10^7 iteration cap), SVM shrinking (panics, property C13)".into(),
+            "decision-tree cases with >= 3 classes or engineered label ties attribute every difference between two runs to the hash-order findings recorded for them (class-level attribution); new non-determinism in tree fitting is searched in the two-class, tie-free class (per-class sample weights 1 + c/1024), where no tie-break and no reordered float sum can legitimately matter".into(),
+            format!("tree impurity differences are recognised as 'rounding of a reordered f32 sum' only below {:e}", tree_bayes::F32_REORDER_GAP),
+            "Labels::labels()/one_vs_all() (order of a returned Vec follows a HashSet) are dataset utilities, not estimators, and are not asserted".into(),
+        ],
+        subs,
+    }
 }
